@@ -50,6 +50,8 @@ def run(chk: common.Check, tier: str):
     kn = gramgen.Knobs(terminals=("NAME", "NUMBER", "'+'", "','", "'if'", '"in"', "NEWLINE"), left_rec=True,
                        action_pool=("[x, y]", "(x, 1)", "'lit'", "foo(x)", "foo()", "0", "None"))
     texts = SEEDS + list(gramgen.gen_grammars(r, kn, 40 if tier == "quick" else 500))
+    import dataclasses
+    texts += list(gramgen.gen_grammars(r, dataclasses.replace(kn, terminals=("NAME", "SOFT_KEYWORD", "STRING", "OP", "NUMBER", '"soft"', "'kw'", "'+'", "NEWLINE")), 12 if tier == "quick" else 150))
     nin, ln = (25, 3) if tier == "quick" else (200, 4)
     pairs = rm.krun(chk, "C04", texts,
                     lambda t: A.inputs_upto(A.alphabet(t), ln, nin) + (EXTRA_INPUTS if t in SEEDS else []),
